@@ -4,16 +4,16 @@ IQ == {"m7", "m2", "m1", "0", "1", "2", "7", "i31", "i63"}
 ISmall == {"m2", "0", "2", "7"}
 FQ == {<<3, 1>>, <<-9, 2>>}
 SQ == {"ab", "x y"}
-AllT == {"ilit", "flit", "slit", "bin", "fn", "ann", "cmp", "neg", "meth", "scat", "smul", "slen", "lmk", "lcat", "lget", "lpush", "lmap"}
-CollT == {"ilit", "slit", "lmk", "lcat", "lget", "lpush", "lmap", "slen", "scat", "smul", "neg"}
+AllT == {"ilit", "flit", "slit", "bin", "fn", "ann", "cmp", "neg", "meth", "scat", "smul", "slen", "lmk", "lcat", "lget", "lpush", "lmap", "ifg", "lpushi", "opmeth"}
+CollT == {"ilit", "slit", "lmk", "lcat", "lget", "lpush", "lmap", "slen", "scat", "smul", "neg", "lpushi", "ifg"}
 NumOnly == {"ilit", "bin", "fn", "neg", "meth", "ann"}
-AllK == {"opmis", "argty", "arity", "undef", "noattr"}
+AllK == {"opmis", "argty", "arity", "arityf", "undef", "noattr"}
 NoK == {}
 D0 == {0}
-DAll == 0..4
+DAll == 0..6
 NoF == {}
 NoS == {}
-PairT == {"ilit", "bin", "fn", "neg", "meth"}
+PairT == {"ilit", "bin", "fn", "neg", "meth", "ifg", "opmeth"}
 IPair == {"m7", "m1", "0", "1", "2", "i31"}
 IPairQ == {"m2", "0", "2"}
 ====
